@@ -1427,7 +1427,7 @@ class Evaluator:
         return ("size_of" if idx == 0 else "align_of", ty)
 
     # ------------------------------------------------------------------ guards
-    def guards(self, res, bb, body=None):
+    def guards(self, res, bb, body=None, _depth=0):
         """Conditions known to hold on entry of block bb of res.body: list of (cond_term, ('eq',v)|('ne',[v..]))."""
         body = body or res.body
         out = []
@@ -1457,12 +1457,45 @@ class Evaluator:
                     out.append((cond, ("eq", vals[0])))
                 else:
                     out.append((cond, ("in", tuple(vals))))
+        if _depth < 3:
+            for cond, rel in list(out):
+                out.extend(self._flag_phi_guards(res, body, cond, rel, _depth))
         return out
 
-    def guards_edge(self, res, p, j, body=None):
+    def _flag_phi_guards(self, res, body, cond, rel, depth):
+        """A branch on a flag that was joined from constants in this frame (`matches!(..)`, `let ok = a && b;`) carries the guards
+        common to the incoming edges whose constant satisfies the branch."""
+        if not (tag(cond) == "phi" and len(cond) > 4 and cond[4] and all(o is not None for o in cond[4])):
+            return []
+        if not all(isinstance(a, Lin) and a.is_const() for a in cond[3]):
+            return []
+        chain = res.frame.chain if res.frame is not None else ()
+        site = cond[1]
+        if tuple(site) != frame_site(chain, body, str(site[-1]).split("@")[-1]):
+            return []
+        try:
+            jb = int(str(site[-1]).split("@")[-1])
+        except ValueError:
+            return []
+
+        def sat(v):
+            if rel[0] == "eq":
+                return v == rel[1]
+            if rel[0] == "ne":
+                return v not in tuple(rel[1])
+            if rel[0] == "in":
+                return v in tuple(rel[1])
+            return True
+        match = [o for a, o in zip(cond[3], cond[4]) if sat(a.c)]
+        if not match or len(match) == len(cond[4]):
+            return []
+        sets = [set(self.guards_edge(res, o, jb, body, depth + 1)) for o in match]
+        return list(set.intersection(*sets))
+
+    def guards_edge(self, res, p, j, body=None, _depth=0):
         """guards that hold when control flows along the CFG edge p -> j"""
         body = body or res.body
-        gs = list(self.guards(res, p, body))
+        gs = list(self.guards(res, p, body, _depth))
         t = body.blocks[p]["term"]
         if t["k"] == "switch" and p in res.conds:
             cond = res.conds[p]
